@@ -55,7 +55,10 @@ def run(ctx: common.Ctx):
         'exception (exact), trypsin with the default exception, all 35 enzymes; each case = real '
         'callVariant vs Spec.callVariant evaluated by the native Lean driver over ALL compatible '
         'subsets of the usable records; half of the cases are re-run with other node-collapsing '
-        'parameters. non-trivial = definition or tool reports >= 1 peptide')
+        'parameters; plus two-gene inputs with ONE fusion (exonic / intronic breakpoints, coding and '
+        'non-coding donors) and single-gene inputs with ONE circRNA / ciRNA, each with small records: real '
+        'FASTA vs union of Spec.callVariant per transcript and Spec.callBackbone / Spec.callCirc. '
+        'non-trivial = definition or tool reports >= 1 peptide')
     base = dict(vary=True, per_tx=(1, 7), max_size=6, window=24, witness=False, as_frac=0.3)
     res = cv_checks.explore(ctx, ctx.n(220, 4000), dict(base, exception=None, variations=['collapse']))
     stats = dict(ctx.coverage['worker_stats'])
@@ -66,11 +69,29 @@ def run(ctx: common.Ctx):
     res = cv_checks.explore(ctx, ctx.n(140, 2500),
                             dict(base, exception=None, enzymes=cv_checks.enzymes_all()))
     judge(ctx, res, 'all-enzymes')
+    for kind, n in (('fusion', ctx.n(90, 1500)), ('circ', ctx.n(90, 1500))):
+        bres = cv_checks.explore_backbone(ctx, kind, n, dict(exception=None))
+        for r in bres:
+            if 'crash' in r:
+                ctx.evaluated(kind, str(r['seed']), True, None)
+                ctx.add_violation(f'callVariant crashed ({r["crash"][0]}: {r["crash"][1]}) on a valid '
+                                  f'{kind} input', dict(r.get('desc', {}), kind='crash'))
+                continue
+            if 'S' not in r:
+                continue
+            ctx.evaluated(kind, str(r['seed']), bool(r['S'] or r['real_set']),
+                          dict(r['desc'], n_expected=len(r['S']), n_reported=len(r['real_set'])))
+            missing = r['S'] - r['real_set']
+            if missing:
+                ctx.add_violation(
+                    f'{len(missing)} peptide(s) of the {kind} definition are missing from the callVariant '
+                    f'FASTA, e.g. {sorted(missing)[:3]}', dict(r['desc'], kind='missing-' + kind,
+                                                               missing=sorted(missing)[:20]))
     ctx.coverage['worker_stats'] = {'trypsin-noexc': stats, 'trypsin-exc': stats2,
                                     'all-enzymes': ctx.coverage['worker_stats']}
     ctx.assumptions += [
         'PARTIAL: graph construction (TVG/PVG) is not modelled; it is tied to the definition only by '
-        'this differential. Fusion and circRNA records are outside this stream (alternative-splicing records are in, without nested intronic variants).',
+        'this differential. Alternative-splicing records are in (without nested intronic variants); fusion and circRNA backbones have their own streams (one fusion / one circRNA per input, assembled by the harness from the record fields).',
         'transcript-level inputs of the definition come through the repository loaders '
         '(VariantRecordPool.load_variants, get_transcript_sequence): covered by C11/C13/C14',
         'canonical pool comes from the real create_unique_peptide_pool (C10)']
